@@ -3,7 +3,14 @@
 WIRE_TB = ['hand-written Lean model of Message::Flatten/Unflatten/FlattenedSize and the public mutators (lean/MuscleModel/Wire)',
            'type codes, protocol version, per-type wire sizes and the nesting limit are regenerated from /repo on every run (tools/extract_consts.cpp)']
 
+SRV_H = [{'name': 'srv', 'sources': ['harness/srv.cpp']}]
+
 PROPS = {
+    'C04': {
+        'engine': 'srv',
+        'lean_props': ['MuscleModel.Props.C01'],
+        'harnesses': SRV_H,
+    },
     'C01': {
         'engine': 'msg',
         'lean_props': ['MuscleModel.Props.C01'],
